@@ -69,6 +69,20 @@ let cmd_build () =
             List.iter (fun (_, n) -> print_string (pr_node n); print_char '\n') g.g_nodes;
             List.iter (fun (a, b) -> Printf.printf "EDGE %s %s\n" (hexb a) (hexb b)) g.g_edges
           | Panic site -> Printf.printf "OUTCOME panic %s\n" (hexb site));
+         (* decoder specification (Scan/Decode.v) on every node with a recognised shape *)
+         let rec walk (prev : cst option) (n : cst) =
+           let sh = shape_of n in
+           (match n with Cst (ty, _, _, _, sb, eb, row, _, kids) ->
+              if sh <> [] then begin
+                let attrs = (match decode_node src prev n with
+                    | Some l -> String.concat ";" (List.map (fun (k, vs) -> string_of_bytes k ^ ":" ^ hexlist vs) l)
+                    | None -> "~") in
+                Printf.printf "DEC shape=%s type=%s line=%d snippet=%s attrs=%s\n" (string_of_bytes sh) (hexb ty)
+                  (int_of_n row + 1) (hexb (content src n)) attrs
+              end;
+              let rec go p = function [] -> () | k :: r -> walk p k; go (Some k) r in
+              go None kids) in
+         walk None t;
          (match census src path None t with
           | Ok es -> List.iter (fun n -> Printf.printf "ENT idpre=%s type=%s line=%d snippet=%s name=%s\n"
                                   (hexb n.n_idpre) (hexb n.n_type) (int_of_n n.n_line) (hexb n.n_snippet) (hexb n.n_name)) es
